@@ -174,15 +174,7 @@ public:
 
 		std::lock_guard<Mutex> lockGuard(mutex);
 
-		if(head) {
-			node->previous = tail;
-			tail->next = node;
-			tail = node;
-		}
-		else {
-			head = node;
-			tail = node;
-		}
+		doAppend(node);
 
 		return Handle(node);
 	}
@@ -217,7 +209,15 @@ public:
 
 			std::lock_guard<Mutex> lockGuard(mutex);
 
-			doInsert(node, beforeNode);
+			// `before` may have been removed already while its node is still alive,
+			// either kept by a running invocation or removed by another thread just now.
+			// Then it's no longer in the list, so append at the back.
+			if(beforeNode->counter != removedCounter) {
+				doInsert(node, beforeNode);
+			}
+			else {
+				doAppend(node);
+			}
 
 			return Handle(node);
 		}
@@ -235,7 +235,8 @@ public:
 		std::lock_guard<Mutex> lockGuard(mutex);
 
 		auto node = handle.lock();
-		if(node) {
+		// A removed node can be still alive if a running invocation holds it, don't remove it twice.
+		if(node && node->counter != removedCounter) {
 			doFreeNode(node);
 			return true;
 		}
@@ -248,7 +249,7 @@ public:
 		std::lock_guard<Mutex> lockGuard(mutex);
 
 		auto node = handle.lock();
-		if(node) {
+		if(node && node->counter != removedCounter) {
 			while(node->previous) {
 				node = node->previous;
 			}
@@ -362,6 +363,19 @@ private:
 		-> typename std::enable_if<CanInvoke<Func, Callback &>::value, RT>::type
 	{
 		return func(node->callback);
+	}
+
+	void doAppend(NodePtr & node)
+	{
+		if(head) {
+			node->previous = tail;
+			tail->next = node;
+			tail = node;
+		}
+		else {
+			head = node;
+			tail = node;
+		}
 	}
 
 	void doInsert(NodePtr & node, NodePtr & beforeNode)
